@@ -225,7 +225,8 @@ NoiseNo(nz) == Abs(nz[1]) + 2 * Abs(nz[2]) + 3 * Abs(nz[3])
 \* measured by the driver): mobile form, fixed form, half shift (never with an integer fixed form)
 MobForm(gi, p, mask, nz) == Forms[((gi + 5 * p + 3 * MaskNo(mask) + 7 * NoiseNo(nz)) % NF) + 1]
 FixForm(gi, p, mask, nz) == Forms[((2 * gi + p + MaskNo(mask) + NoiseNo(nz)) % NF) + 1]
-HalfShift(gi, p, mask, nz) == IF IntForm(FixForm(gi, p, mask, nz)) THEN 0 ELSE (gi + p + MaskNo(mask)) % 2
+\* (gi \div 2: with an even number of forms the parity of gi is tied to the parity of the mobile form)
+HalfShift(gi, p, mask, nz) == IF IntForm(FixForm(gi, p, mask, nz)) THEN 0 ELSE ((gi \div 2) + p + MaskNo(mask)) % 2
 FitCases(PS, GI, NZ) ==
   {<<"fit", <<PointSets[p], gi, (gi + p) % 5, mask, noise, Depths[((gi + 3 * p) % Len(Depths)) + 1][1], Depths[((gi + 3 * p) % Len(Depths)) + 1][2],
               FixForm(gi, p, mask, noise), MobForm(gi, p, mask, noise), HalfShift(gi, p, mask, noise)>>>> :
